@@ -1719,29 +1719,48 @@ namespace awkward {
              dynamic_cast<SliceMissing64*>(head.get())) {
       return Content::getitem_next(*missing, tail, advanced);
     }
+    else if (SliceNewAxis* newaxis =
+             dynamic_cast<SliceNewAxis*>(head.get())) {
+      return Content::getitem_next(*newaxis, tail, advanced);
+    }
+    else if (SliceEllipsis* ellipsis =
+             dynamic_cast<SliceEllipsis*>(head.get())) {
+      return Content::getitem_next(*ellipsis, tail, advanced);
+    }
     else {
-      SliceItemPtr nexthead = tail.head();
-      Slice nexttail = tail.tail();
-      Slice emptytail;
-      emptytail.become_sealed();
+      // field items further along the slice belong to this record (the first
+      // one reached): apply them before the positional items
+      Slice only_fields = tail.only_fields();
+      if (only_fields.length() != 0) {
+        Slice not_fields = tail.not_fields();
+        ContentPtr projected = getitem_next(only_fields.head(),
+                                            only_fields.tail(),
+                                            Index64::empty_advanced());
+        return projected.get()->getitem_next(head, not_fields, advanced);
+      }
 
+      if (contents_.empty()) {
+        throw std::invalid_argument(
+          std::string("too many dimensions in slice") + FILENAME(__LINE__));
+      }
       ContentPtrVec contents;
       for (auto content : contents_) {
         ContentPtr trimmed = content.get()->getitem_range_nowrap(0, length());
         contents.push_back(trimmed.get()->getitem_next(head,
-                                                       emptytail,
+                                                       tail,
                                                        advanced));
       }
       util::Parameters parameters;
-      if (head.get()->preserves_type(advanced)) {
+      bool preserves = head.get()->preserves_type(advanced);
+      for (auto item : tail.items()) {
+        if (!item.get()->preserves_type(advanced)) {
+          preserves = false;
+        }
+      }
+      if (preserves) {
         parameters = parameters_;
       }
-      if (contents.empty()) {
-        throw std::invalid_argument(
-          std::string("too many dimensions in slice") + FILENAME(__LINE__));
-      }
-      RecordArray out(Identities::none(), parameters, contents, recordlookup_);
-      return out.getitem_next(nexthead, nexttail, advanced);
+      return std::make_shared<RecordArray>(Identities::none(), parameters, contents, recordlookup_);
     }
   }
 
@@ -1906,6 +1925,15 @@ namespace awkward {
                                            const Index64& slicestops,
                                            const S& slicecontent,
                                            const Slice& tail) const {
+    // field items further along the slice belong to this record
+    Slice only_fields = tail.only_fields();
+    if (only_fields.length() != 0) {
+      Slice not_fields = tail.not_fields();
+      ContentPtr projected = getitem_next(only_fields.head(),
+                                          only_fields.tail(),
+                                          Index64::empty_advanced());
+      return projected.get()->getitem_next_jagged(slicestarts, slicestops, slicecontent, not_fields);
+    }
     if (contents_.empty()) {
       return shallow_copy();
     }
